@@ -35,8 +35,22 @@ def dyadic_tol_specs(ctx):
     return specs
 
 
+def unlocked_search_mesh_specs(ctx):
+    """search_size_locked = False (the search mesh is then only tightened after failed polls, and turned into a size at the top of the loop),
+    runs long enough for the poll mesh to fall below the initial search mesh (2^-10)."""
+    from .. import gen
+    rng = ctx.sub_rng("c13unlocked")
+    specs = []
+    for mode in (("det", "det", "decl") if ctx.quick else ("det",) * 8 + ("decl", "auto", "he")):
+        sp = gen.make_spec(rng, D=rng.choice([1, 2]), geom=rng.choice(["box", "tight"]), mode=mode, cons=None, opt_loc="inside", target=rng.choice(["quad", "abs"]))
+        sp["options"] = {"n_search": 32, "search_size_locked": False, "max_fun_evals": 180 if mode == "det" else 220, "noise_final_samples": 0, "tol_stall_iters": 60}
+        specs.append(sp)
+    return specs
+
+
 def run(ctx):
     rep = Report()
+    runlevel.with_extra(ctx, "c13unlocked", lambda: unlocked_search_mesh_specs(ctx))
     runlevel.with_extra(ctx, "c13stall", lambda: stalling_noisy_specs(ctx))
     runlevel.with_extra(ctx, "c13dyadic", lambda: dyadic_tol_specs(ctx))
     runlevel.scripted_controller_runs(ctx, "c13script", 12 if ctx.quick else 120)
